@@ -297,3 +297,47 @@ Section Link.
       end
     end.
 End Link.
+
+(* ---- CompilePackage as a whole: load, sort the file names, link them ------------------------ *)
+(* The link phase looks files up through PackageSet.findFileByPath: the package is a function of the path
+   (sourceResolver.packageForFile / SplitPackageFromFilename: [owner]), the file is taken from that package's
+   Files map if the package has been loaded.  Both caches live in the PackageSet across calls: the loaded
+   packages ([pc]) and the SearchResult.Linked results ([lc]). *)
+Section Compose.
+  Context {F D L : Type}.
+  Variable convert : env -> @srcfile F -> bytes -> D.
+  Variable list_files : bytes -> list (@srcfile F) -> list (@srcfile F).
+  Variable range_deps : bytes -> list bytes -> list bytes.
+  Variable range_files : bytes -> list bytes -> list bytes.
+  Variable owner : bytes -> bytes.
+  Variable deps_of : D -> list bytes.
+  Variable link1 : D -> list L -> L.
+
+  Definition lookup_in (pc : list (bytes * @pkg D)) (path : bytes) : option D :=
+    match map_get (owner path) pc with
+    | Some p => map_get path (p_files p)
+    | None => None
+    end.
+
+  Definition compile_and_link (fuel lfuel : nat) (b : @bundle F) (pc : list (bytes * @pkg D)) (lc : list (bytes * L))
+             (name : bytes) : option (list (bytes * @pkg D) * list (bytes * L) * list (bytes * L)) :=
+    match compile_package convert list_files range_deps range_files fuel b pc name with
+    | None => None
+    | Some (pc', out) =>
+        match link_all (lookup_in pc') deps_of link1 lfuel lc (map fst out) with
+        | None => None
+        | Some (lc', ls) => Some (pc', lc', combine (map fst out) ls)
+        end
+    end.
+
+  (* a history of CompilePackage calls on one PackageSet: both caches are threaded; a failed call leaves them *)
+  Fixpoint compile_link_seq (fuel lfuel : nat) (b : @bundle F) (pc : list (bytes * @pkg D)) (lc : list (bytes * L))
+           (calls : list bytes) : list (bytes * @pkg D) * list (bytes * L) :=
+    match calls with
+    | [] => (pc, lc)
+    | n :: r => match compile_and_link fuel lfuel b pc lc n with
+                | Some (pc', lc', _) => compile_link_seq fuel lfuel b pc' lc' r
+                | None => compile_link_seq fuel lfuel b pc lc r
+                end
+    end.
+End Compose.
